@@ -14,6 +14,7 @@ import (
 	"crypto/sha256"
 	"encoding/binary"
 	"fmt"
+	"runtime"
 	"sort"
 	"strings"
 	"sync"
@@ -450,10 +451,46 @@ func vUniv() *vUniverse {
 	return vUni
 }
 
+var (
+	vWideOnce sync.Once
+	vWide     *vUniverse
+)
+
+// vWideUniv: one multihash under every 9-bit prefix (512 keys), for queues with hundreds of regions.
+func vWideUniv() *vUniverse {
+	vWideOnce.Do(func() { vWide = vNewUniverse(9, 1) })
+	return vWide
+}
+
+// vWidePersist persists and restores a queue holding n >= 17 regions (n distinct 9-bit prefixes
+// enqueued in PRNG order, one key each; mostly 17-48, sometimes 257-316): the persisted
+// position must keep the queue order also when it needs more than one / two hex (or decimal)
+// digits. The prefixes are pairwise non-overlapping, so the model is the enqueue order itself.
+func vWidePersist(c *vh.Case) {
+	u := vWideUniv()
+	n := 17 + c.R.Intn(32)
+	if c.R.Intn(6) == 0 {
+		n = 257 + c.R.Intn(60)
+	}
+	q, m := NewProvideQueue(), &vModel{u: u, keys: map[string]bool{}}
+	for _, i := range c.R.Perm(len(u.keys))[:n] {
+		k := u.keys[i]
+		p := u.bits[string(k)][:9]
+		q.Enqueue(bitstr.Key(p), k)
+		m.enqueue(p, []mh.Multihash{k})
+	}
+	batch := []int{1, 2, 3, 7, 16, 100, 1000}[c.R.Intn(7)]
+	c.Logf("wide persist: %d regions (9-bit prefixes, one key each), Persist batch %d", n, batch)
+	c.Check(q.NumRegions() == n && q.Size() == n, "regions", "wide queue: %d distinct 9-bit prefixes enqueued with one key each, NumRegions()=%d Size()=%d", n, q.NumRegions(), q.Size())
+	vPersistCheck(c, q, m, batch, nil)
+	c.Obs("wide_persist_restart_points", 1)
+	c.ObsMax("wide_persist_max_regions", n)
+}
+
 // TestVerif_C19_history: PRNG histories of up to 25 operations with a persist/restart after every step.
 func TestVerif_C19_history(t *testing.T) {
 	vh.Run(t, vh.Spec{Prop: "C19", Unit: "history", Quick: 2500, Thorough: 200000, CostMs: 2,
-		Rule: "PRNG histories of 4-25 enqueue/dequeue/dequeue-matching/remove/clear operations over prefixes of length 0-5 (incl. the empty prefix) and 64 multihashes; lock-step list model; Persist+DrainDatastore into a fresh queue after every step; non-trivial = some enqueue absorbed or was covered by another prefix and at least one persist check ran on a queue with >= 2 prefixes; distinct by the sequence of model states",
+		Rule: "PRNG histories of 4-25 enqueue/dequeue/dequeue-matching/remove/clear operations over prefixes of length 0-5 (incl. the empty prefix) and 64 multihashes; lock-step list model; Persist+DrainDatastore into a fresh queue after every step; one case in 4 also persists/restores a queue of 17-48 (1 in 6: 257-316) distinct 9-bit prefixes enqueued in PRNG order; non-trivial = some enqueue absorbed or was covered by another prefix and at least one persist check ran on a queue with >= 2 prefixes; distinct by the sequence of model states",
 		Clauses: []string{"dequeue-oldest", "dequeue-keys", "dequeue-matching", "size", "regions", "persist-restore", "drain-empties-datastore", "drain-additive"}},
 		func(c *vh.Case) {
 			u := vUniv()
@@ -530,6 +567,10 @@ func TestVerif_C19_history(t *testing.T) {
 				} else {
 					vDrainCompare(c, other, om, "drain-additive", "additive DrainDatastore into a non-empty queue")
 				}
+			}
+			// one case in 4: persist/restart of a queue with more regions than the histories above reach (<= 7)
+			if !c.Failed() && c.R.Intn(4) == 0 {
+				vWidePersist(c)
 			}
 			c.Set("ops", n)
 			if overlap && multi {
@@ -699,8 +740,8 @@ func TestVerif_C19_reprovide(t *testing.T) {
 
 func TestVerifRace_C19_conserve(t *testing.T) {
 	vh.Run(t, vh.Spec{Prop: "C19", Unit: "conserve", Quick: 30, Thorough: 600, CostMs: 40,
-		Rule: "real-parallel: 3 producers enqueue disjoint unique keys under nested prefixes while 2 consumers dequeue / dequeue-matching and 1 remover removes; oracle = conservation (every enqueued key leaves exactly once or is still held), no key returned twice; run under -race; non-trivial = consumers and remover all took keys; distinct by (taken-by-dequeue, taken-by-matching, removed) counts",
-		Clauses: []string{"conservation", "no-duplicate-delivery"}},
+		Rule: "real-parallel: 3 producers enqueue disjoint unique keys under nested prefixes while 2 consumers dequeue / dequeue-matching and 1 remover removes; oracle = conservation (every enqueued key leaves exactly once or is still held), no key returned twice; run under -race; meanwhile an observer goroutine calls Persist (+ Size/NumRegions/IsEmpty) in a loop and restores every snapshot into a fresh queue (no key twice, only enqueued keys, non-overlapping prefixes); then a ReprovideQueue: 3 parallel producers (Enqueue of 1-3 nested prefixes per call) + observer, final content = the minimal elements of everything enqueued, then parallel Enqueue/Dequeue/Remove/Clear, remaining content unique, non-overlapping, only enqueued prefixes; non-trivial = consumers and remover all took keys; distinct by (taken-by-dequeue, taken-by-matching, removed) counts",
+		Clauses: []string{"conservation", "no-duplicate-delivery", "persist-snapshot", "rq-parallel"}},
 		func(c *vh.Case) {
 			u := vUniv()
 			q := NewProvideQueue()
@@ -717,6 +758,64 @@ func TestVerifRace_C19_conserve(t *testing.T) {
 				}
 			}
 			stop := make(chan struct{})
+			// observer: Persist is a snapshot taken under the queue's lock; it runs concurrently with the
+			// producers / consumers and every snapshot must restore to a well-formed queue. Its first
+			// access to the queue is Persist itself (nothing before it synchronises with the writers).
+			var owg sync.WaitGroup
+			snapshots, snapKeys, snapBad := 0, 0, ""
+			owg.Add(1)
+			go func() {
+				defer owg.Done()
+				ctx := context.Background()
+				for {
+					store := dssync.MutexWrap(ds.NewMapDatastore())
+					if err := q.Persist(ctx, store, 3); err != nil {
+						snapBad = "Persist: " + err.Error()
+						return
+					}
+					fresh := NewProvideQueue()
+					if err := fresh.DrainDatastore(ctx, store); err != nil {
+						snapBad = "DrainDatastore: " + err.Error()
+						return
+					}
+					size := fresh.Size()
+					seen := map[string]bool{}
+					var ps []string
+					for {
+						p, keys, ok := fresh.Dequeue()
+						if !ok {
+							break
+						}
+						for _, o := range ps {
+							if strings.HasPrefix(o, string(p)) || strings.HasPrefix(string(p), o) {
+								snapBad = fmt.Sprintf("snapshot restores overlapping prefixes %q and %q", o, p)
+							}
+						}
+						ps = append(ps, string(p))
+						for _, k := range keys {
+							if _, known := u.bits[string(k)]; !known {
+								snapBad = fmt.Sprintf("snapshot restores a key that was never enqueued under prefix %q", p)
+							}
+							if seen[string(k)] {
+								snapBad = fmt.Sprintf("snapshot restores a key twice (prefix %q)", p)
+							}
+							seen[string(k)] = true
+						}
+					}
+					if size != len(seen) {
+						snapBad = fmt.Sprintf("restored snapshot: Size()=%d but %d keys dequeued", size, len(seen))
+					}
+					snapshots++
+					snapKeys += len(seen)
+					_, _, _ = q.Size(), q.NumRegions(), q.IsEmpty()
+					select {
+					case <-stop:
+						return
+					default:
+					}
+					runtime.Gosched()
+				}
+			}()
 			for pi := range parts {
 				wg.Add(1)
 				go func(pi int, seed int64) {
@@ -772,6 +871,10 @@ func TestVerifRace_C19_conserve(t *testing.T) {
 			}
 			close(stop)
 			cwg.Wait()
+			owg.Wait()
+			c.Check(snapBad == "", "persist-snapshot", "Persist concurrent with enqueue/dequeue: %s", snapBad)
+			c.Obs("concurrent_persist_snapshots", snapshots)
+			c.Obs("concurrent_persist_snapshot_keys", snapKeys)
 			// drain the rest
 			for {
 				_, keys, ok := q.Dequeue()
@@ -794,8 +897,166 @@ func TestVerifRace_C19_conserve(t *testing.T) {
 			c.Check(dup == 0, "no-duplicate-delivery", "%d keys delivered more than once", dup)
 			c.Obs("keys_enqueued", len(u.keys))
 			c.Obs("keys_delivered", counts[0]+counts[1]+counts[2])
+			vRqParallel(c)
 			if counts[0] > 0 && counts[1] > 0 {
 				c.Nontrivial(fmt.Sprintf("%d-%d-%d", counts[0], counts[1], counts[2]))
 			}
 		})
+}
+
+// vRqParallel: the reprovide queue under real parallelism (and the race detector).
+// Phase A, enqueues only: whatever the interleaving, the queue ends up holding exactly the
+// minimal elements (no proper prefix enqueued) of everything enqueued, each once.
+// Phase B, Enqueue/Dequeue/Remove/Clear in parallel: what remains is unique, pairwise
+// non-overlapping and was enqueued; Size agrees with the number of entries dequeued.
+func vRqParallel(c *vh.Case) {
+	rq := NewReprovideQueue()
+	pool := vPrefixPool[1:] // without the empty prefix, which would absorb everything
+	draw := func(calls int) [][]bitstr.Key {
+		out := make([][]bitstr.Key, calls)
+		for i := range out {
+			for j := 0; j < 1+c.R.Intn(3); j++ {
+				out[i] = append(out[i], bitstr.Key(pool[c.R.Intn(len(pool))]))
+			}
+		}
+		return out
+	}
+	drain := func() ([]string, int) {
+		size := rq.Size()
+		var got []string
+		for {
+			p, ok := rq.Dequeue()
+			if !ok {
+				return got, size
+			}
+			got = append(got, string(p))
+		}
+	}
+	wellFormed := func(got []string, pushed map[string]bool) string {
+		for i, a := range got {
+			if !pushed[a] {
+				return fmt.Sprintf("prefix %q was never enqueued", a)
+			}
+			for j, b := range got {
+				if i != j && strings.HasPrefix(a, b) {
+					return fmt.Sprintf("prefixes %q and %q overlap", b, a)
+				}
+			}
+		}
+		return ""
+	}
+	// phase A
+	pushed := map[string]bool{}
+	lists := [][][]bitstr.Key{draw(12), draw(12), draw(12)}
+	for _, l := range lists {
+		for _, call := range l {
+			for _, p := range call {
+				pushed[string(p)] = true
+			}
+		}
+	}
+	start, done := make(chan struct{}), make(chan struct{})
+	var wg, owg sync.WaitGroup
+	for _, l := range lists {
+		wg.Add(1)
+		go func(l [][]bitstr.Key) {
+			defer wg.Done()
+			<-start
+			for _, call := range l {
+				rq.Enqueue(call...)
+			}
+		}(l)
+	}
+	owg.Add(1)
+	go func() {
+		defer owg.Done()
+		<-start
+		for {
+			_, _ = rq.Size(), rq.IsEmpty()
+			select {
+			case <-done:
+				return
+			default:
+			}
+			runtime.Gosched()
+		}
+	}()
+	close(start)
+	wg.Wait()
+	close(done)
+	owg.Wait()
+	var want []string
+	for p := range pushed {
+		minimal := true
+		for o := range pushed {
+			minimal = minimal && !(o != p && strings.HasPrefix(p, o))
+		}
+		if minimal {
+			want = append(want, p)
+		}
+	}
+	sort.Strings(want)
+	got, size := drain()
+	sorted := append([]string(nil), got...)
+	sort.Strings(sorted)
+	c.Check(vEq(sorted, want) && size == len(got), "rq-parallel", "3 parallel producers enqueued %d distinct prefixes: the queue holds %v (Size %d), want the minimal ones %v in some order", len(pushed), got, size, want)
+	// phase B
+	lists = [][][]bitstr.Key{draw(12), draw(12)}
+	for _, l := range lists {
+		for _, call := range l {
+			for _, p := range call {
+				pushed[string(p)] = true
+			}
+		}
+	}
+	rem := draw(10)
+	clearAt := c.R.Intn(20)
+	start = make(chan struct{})
+	for _, l := range lists {
+		wg.Add(1)
+		go func(l [][]bitstr.Key) {
+			defer wg.Done()
+			<-start
+			for _, call := range l {
+				rq.Enqueue(call...)
+			}
+		}(l)
+	}
+	var deq []string
+	wg.Add(2)
+	go func() {
+		defer wg.Done()
+		<-start
+		for i := 0; i < 10; i++ {
+			if p, ok := rq.Dequeue(); ok {
+				deq = append(deq, string(p))
+			}
+			runtime.Gosched()
+		}
+	}()
+	go func() {
+		defer wg.Done()
+		<-start
+		for i, call := range rem {
+			rq.Remove(call[0])
+			if i == clearAt {
+				rq.Clear()
+			}
+			runtime.Gosched()
+		}
+	}()
+	close(start)
+	wg.Wait()
+	got, size = drain()
+	bad := wellFormed(got, pushed)
+	if bad == "" {
+		// dequeued entries may repeat or overlap over time, they only have to be known
+		for _, p := range deq {
+			if !pushed[p] {
+				bad = fmt.Sprintf("Dequeue returned %q, which was never enqueued", p)
+			}
+		}
+	}
+	c.Check(bad == "" && size == len(got), "rq-parallel", "after parallel Enqueue/Dequeue/Remove/Clear the queue holds %v (Size %d): %s", got, size, bad)
+	c.Obs("rq_parallel_enqueue_calls", 60)
 }
